@@ -143,7 +143,13 @@ func (m *Module) BuildSched(sc *core.Scratch) (string, string, int, error) {
 	}
 	bin := filepath.Join(dst, "drvsched.bin")
 	out, err := core.Run(dst, 10*time.Minute, core.GoEnv(), "go", "build", "-o", bin, "./drv")
+	if err != nil && !strings.Contains(out, "mocks_gen.go") {
+		out, err = core.Run(dst, 10*time.Minute, core.GoEnv(), "go", "build", "-o", bin, "./drv")
+	}
 	if err != nil {
+		if !strings.Contains(out, "mocks_gen.go") {
+			return "", out, yields, core.Infra("building the sched driver failed (not in generated code):\n%s", core.Tail(out, 30))
+		}
 		return "", out, yields, core.Infra("sched build does not compile:\n%s", core.Tail(out, 30))
 	}
 	return bin, dst, yields, nil
